@@ -16,6 +16,13 @@ def parseAct (a : String) : Option Act :=
     let k ← natsOfHex k
     let v ← natsOfHex v
     pure (Act.add k v)
+  | ["A", k, b, n] => do
+    let k ← natsOfHex k
+    let b ← natsOfHex b
+    let n ← n.toNat?
+    match b with
+    | [x] => pure (Act.add k (List.replicate n x))
+    | _ => none
   | ["s", c] => c.toNat?.map Act.status
   | ["w", b, n] => do
     let b ← natsOfHex b
@@ -44,18 +51,31 @@ def rle (p : List Nat) : String :=
   | [] => "-"
   | x :: r => ".".intercalate ((rleAux r x 1 []).map fun (b, n) => hexOfNats [b] ++ "*" ++ toString n)
 
-def renderFrame : Frame → String
-  | .headers fs e => "H" ++ (if e then "+" else "-") ++ ":" ++
-      ",".intercalate (fs.map fun (k, v) => hexOfNats k ++ "=" ++ hexOfNats v)
+def renderVal (v : Str) : String := if v.length > 64 then "*" ++ rle v else hexOfNats v
+
+def renderWire (w : Wire) : String :=
+  (if w.cont then "c" else "h") ++ (if w.es then "S" else "-") ++ (if w.eh then "E" else "-") ++ toString w.len
+
+/-- `blockLen` = HPACK length of this block, an external quantity taken from the implementation's own report -/
+def renderFrame (f : Frame) (blockLen : Nat) : String :=
+  match f with
+  | .headers fs e => "H" ++ (if e then "+" else "-") ++ "[" ++ ".".intercalate ((splitBlock blockLen e).map renderWire) ++ "]:" ++
+      ",".intercalate (fs.map fun (k, v) => hexOfNats k ++ "=" ++ renderVal v)
   | .data p e => "D" ++ (if e then "+" else "-") ++ ":" ++ rle p
+
+/-- render the frames; the i-th header block takes its encoded length from `lens` -/
+def renderFrames : List Frame → List Nat → List String
+  | [], _ => []
+  | .headers fs e :: r, lens => renderFrame (.headers fs e) (lens.headD 0) :: renderFrames r (lens.drop 1)
+  | f :: r, lens => renderFrame f 0 :: renderFrames r lens
 
 def renderW : WRes → String
   | .n k => toString k
   | .notAllowed => "b"
   | .overLength => "c"
 
-def render (isHead : Bool) (s : St) : String :=
-  let fs := "/".intercalate (s.out.map renderFrame)
+def render (isHead : Bool) (s : St) (lens : List Nat) : String :=
+  let fs := "/".intercalate (renderFrames s.out lens)
   let ws := ",".intercalate (s.wres.map renderW)
   (if fs.isEmpty then "-" else fs) ++ "|" ++ (if ws.isEmpty || isHead then "-" else ws)
 
@@ -63,7 +83,7 @@ def envDrv : Env := { sniff := fun _ => [64], now := [64] }
 
 /-! ### parsing the implementation's result -/
 inductive IFrame
-  | h (fields : List (Str × Str)) (es : Bool)
+  | h (fields : List (Str × Str)) (es : Bool) (wire : List Wire)
   | d (p : List Nat) (es : Bool)
   | other (s : String)
 
@@ -83,26 +103,42 @@ def parseField (s : String) : Option (Str × Str) :=
   match s.splitOn "=" with
   | [k, v] => do
     let k ← natsOfHex k
-    let v ← natsOfHex v
+    let v ← if v.startsWith "*" then parseRuns (v.drop 1).toString else natsOfHex v
     pure (k, v)
   | _ => none
 
+/-- `hS-16384.c-E20` → total length and the frames -/
+def parseWire (s : String) : Option (List Wire) :=
+  (s.splitOn ".").mapM fun w =>
+    let cs := w.toList
+    match cs with
+    | t :: a :: b :: rest => do
+      let n ← (String.ofList rest).toNat?
+      if t != 'h' && t != 'c' then none else
+      pure { cont := t == 'c', es := a == 'S', eh := b == 'E', len := n }
+    | _ => none
+
 def parseIFrame (s : String) : IFrame :=
-  let body := (s.drop 3).toString
-  if s.startsWith "H+:" || s.startsWith "H-:" then
+  if s.startsWith "H+[" || s.startsWith "H-[" then
     let es := s.startsWith "H+"
-    if body.isEmpty then .h [] es
-    else match (body.splitOn ",").mapM parseField with
-      | some fs => .h fs es
+    match ((s.drop 3).toString).splitOn "]:" with
+    | [w, body] =>
+      match parseWire w with
       | none => .other s
+      | some wire =>
+        if body.isEmpty then .h [] es wire
+        else match (body.splitOn ",").mapM parseField with
+          | some fs => .h fs es wire
+          | none => .other s
+    | _ => .other s
   else if s.startsWith "D+:" || s.startsWith "D-:" then
-    match parseRuns body with
+    match parseRuns (s.drop 3).toString with
     | some p => .d p (s.startsWith "D+")
     | none => .other s
   else .other s
 
 def IFrame.es : IFrame → Bool
-  | .h _ e => e
+  | .h _ e _ => e
   | .d _ e => e
   | .other _ => false
 
@@ -149,7 +185,7 @@ def spec (isHead : Bool) (acts : List Act) (impl : String) : String :=
     | [] => "FAIL:no-response"
     | .d _ _ :: _ => "FAIL:data-before-headers"
     | .other _ :: _ => "FAIL:unexpected-frame"
-    | .h hf hes :: rest =>
+    | .h hf hes _ :: rest =>
       let status := expectedStatus acts
       -- 1. status
       if hf.head? != some (lStatus, itoa status) then "FAIL:status" else
@@ -163,11 +199,21 @@ def spec (isHead : Bool) (acts : List Act) (impl : String) : String :=
       let after := rest.dropWhile fun f => match f with | .d _ _ => true | _ => false
       let trailerOk := match after with
         | [] => true
-        | [.h _ _] => true
+        | [.h _ _ _] => true
         | _ => false
       if !trailerOk then "FAIL:frame-order" else
+      -- 3b. every header block: HEADERS first (it alone may carry END_STREAM), then CONTINUATIONs, END_HEADERS exactly
+      --     on the last, fragments non-empty and at most 16384 bytes
+      let wireOk (w : List Wire) (es : Bool) : Bool :=
+        match w with
+        | [] => false
+        | f :: r => !f.cont && f.es == es && r.all (fun c => c.cont && !c.es) &&
+            (w.dropLast.all (fun x => !x.eh)) && ((w.getLast?.map (·.eh)).getD false) &&
+            w.all (fun x => 0 < x.len && x.len ≤ maxFrag)
+      let splitBad := frames.any fun f => match f with | .h _ es w => !wireOk w es | _ => false
+      if splitBad then "FAIL:continuation-split" else
       let tfields := match after with
-        | [.h tf _] => tf
+        | [.h tf _ _] => tf
         | _ => []
       -- 4. names: lower-case valid tokens, nothing connection-specific
       let regular := hf.drop 1
@@ -222,6 +268,13 @@ def run (op impl : String) : Ans :=
   | none => { model := "bad-op", verdict := "skip" }
   | some (isHead, acts) =>
     let s := runHandler envDrv isHead acts
+    -- encoded block lengths (HPACK is external): taken from the implementation's report, in order
+    let implFrames := match impl.splitOn "|" with
+      | f :: _ => if f == "-" then [] else (f.splitOn "/").map parseIFrame
+      | [] => []
+    let lens := implFrames.filterMap fun f => match f with
+      | .h _ _ w => some ((w.map (·.len)).foldl (· + ·) 0)
+      | _ => none
     let adds := allAdds acts
     let hasConn := adds.any fun (k, _) => connNames.contains (lower k) || proxyAuthNames.contains (lower k)
     let hasTrailer := adds.any fun (k, _) => k == sTrailer || sTrailerPrefix.isPrefixOf k
@@ -240,6 +293,8 @@ def run (op impl : String) : Ans :=
       ++ (if nData > 1 then ["multi-data"] else [])
       ++ (if s.wres.contains WRes.overLength then ["over-cl"] else [])
       ++ (if adds.length + nWrites + nFlush ≥ 2 then ["nt"] else [])
-    { model := render isHead s, verdict := spec isHead acts impl, tags := tags }
+    let split := lens.any (· > maxFrag)
+    { model := render isHead s lens, verdict := spec isHead acts impl,
+      tags := tags ++ (if split then ["split"] else []) ++ (if lens.any (fun l => l + 200 > maxFrag && l < maxFrag + 200) then ["near-16384"] else []) }
 
 end BfeVerif.C38
